@@ -95,6 +95,11 @@ CHECKS = {
     text="TLC enumerates boundary classes (key field patterns x permission bytes; key strings of wrong length or with one invalid character at 5 positions; license strings truncated / flipped / re-suffixed / empty / garbage for v1-v3); the real EncryptKey/DecryptKey/Parse/String/Cipher are run on them (20 (quick) / 2000 (thorough) random members per class) and TLC evaluates the contract on every event.",
     note="The XTEA / Salsa20 arithmetic is not specified in TLA+; the specification states the algebraic contract only (thin by design, see DESIGN 5/C20).",
     ref="4.8, 5/C20"),
+ "C09": dict(
+    level="exploration", technique="Session.tla Hostile / ClusterHostile actions (27 connection-level classes, broken cluster payloads) interleaved with ordinary requests in TLC-simulated sessions; replayed against brokers in a child process under an address-space ceiling and a watchdog; recorded packets validated by TLC (Session_Trace); plus a systematic payload corpus through the cluster entry points",
+    text="The model states what a hostile input may do: close the offending connection exactly like any other ending (16 malformed-packet classes), or be answered without changing anything (11 extreme-parameter request classes), or be rejected silently (cluster payloads) - and that every other connection is served exactly as if nothing had happened, now and in all later steps. Behaviours are replayed on real brokers inside a child process (6 GiB address-space ceiling, watchdog); the death or hang of that process, a panic inside a cluster entry point (mesh does not recover) or any deviation in what the canary clients receive is a violation. Every class also runs once in a fixed canary context and a corpus of mutated gossip / frame payloads (truncation at every offset, every byte forced to 0xFF/0x00/0x7F, bad compression, short keys) is fed to OnGossip, OnGossipBroadcast, OnGossipUnicast, DecodeState, DecodeFrame, DecodeMessage.",
+    note="Not covered: arbitrary random byte strings (that is fuzzing, not model-based); the enumerated structural classes and systematic single-byte mutations of valid encodings are. Memory proportionality is judged by the address-space ceiling only. The survey (cluster query) reply path is not driven.",
+    ref="4.5, 5/C09"),
 }
 
 NOT_YET = "check not built yet in this session (planned, see DESIGN.md section 5); not claimed until its machinery exists"
